@@ -460,7 +460,7 @@ func worker(sh *ev.Shard) {
 	type plan struct{ depth, maxLive, dev int }
 	plans := []plan{{6, 1, 1}, {5, 2, 1}, {3, -1, 1}} // maxLive -1 = sequences of complete uses
 	if sh.Thorough() {
-		plans = []plan{{7, 1, 2}, {6, 2, 2}, {4, -1, 2}}
+		plans = []plan{{7, 1, 2}, {6, 2, 2}, {4, -1, 1}} // (4 uses with <= 1 pool deviation: two deviations over ~25 pool points per execution would be ~10^9 executions)
 	}
 	_ = depth
 	_ = maxLive
